@@ -34,7 +34,10 @@ func genCoreCfg(rng *vrng, p coreProfile) coreCfg {
 	c.Conv = uint32(rng.u64())
 	c.Stream = rng.intn(2)
 	wins := []int{1, 2, 3, 4, 8, 32, 128, 1024}
-	mtus := []int{25, 26, 50, 100, 576, 1400, 1500}
+	mtus := []int{25, 26, 50, 50, 100, 100, 100, 200, 576, 1400, 1500}
+	if !rng.chance(15) { // large MTUs only in a minority of histories: control paths depend on lengths relative to the MSS
+		mtus = mtus[:8]
+	}
 	for e := 0; e < 2; e++ {
 		c.Snd[e] = wins[rng.intn(len(wins))]
 		c.Rcv[e] = wins[rng.intn(len(wins))]
